@@ -323,6 +323,18 @@ pub fn build(
         .as_ref()
         .map(|v| v.functions.iter().map(|f| f.name.clone()).collect())
         .unwrap_or_default();
+    // The backend generates accessors of these names next to the functions collected here.
+    let generated_accessors = [
+        vftable.as_ref().map(|_| "vftable"),
+        singleton.map(|_: usize| "get"),
+    ];
+    for accessor in generated_accessors.into_iter().flatten() {
+        if !associated_functions_used_names.insert(accessor.to_string()) {
+            anyhow::bail!(
+                "virtual function `{accessor}` of type `{resolvee_path}` has the name of the generated `{accessor}` accessor"
+            );
+        }
+    }
     for (i, base_region) in regions.iter().filter(|r| r.is_base).enumerate() {
         // Inject all base associated functions into the type
         let Some((base_name, base_type)) = get_region_name_and_type_definition(
